@@ -95,6 +95,13 @@ def exec (a : List String) : String :=
         match bad with
         | some b => s!"{body} {b}"
         | none => s!"{body} ORACLE-OK"
+  | ["big", n, mul, idxs] =>
+    -- arithmetic sequence `vs[j] = mul·j` of `n` elements (manual replays of the sample-truncation
+    -- finding; far too long to run through the list model): answered from the plain sequence,
+    -- to which the model is proved equal whenever `HighFits` holds.
+    let n := parseNat n; let mul := parseNat mul
+    let ans := (parseNats idxs).map fun i => if i < n then toString ((mul * i) % 2 ^ 32) else "-"
+    s!"{",".intercalate ans} ORACLE-OK"
   | _ => "BAD-OP"
 
 end SV.Drv.C03
